@@ -414,6 +414,20 @@ def rule_immenc(ctx, R, F):
                 hi = kb.umax()
             except AnalysisBroken as e:
                 hi = None
+            if hi is None or hi > 127:
+                # path refinement: an enclosing guard `x <= C` / `x < C` (true arm) on the emitted variable bounds it
+                from rules.life import parents_map
+                par = parents_map(f['body'])
+                vid = ref_id(inner) if astq.is_node(inner) else None
+                node = c
+                while vid is not None and id(node) in par:
+                    pnode = par[id(node)]
+                    if pnode['k'] == 'If' and any(y is node for y in walk(pnode['t'])):
+                        cnd = strip_all(pnode['c'])
+                        if cnd['k'] == 'Bin' and cnd['op'] in ('<=', '<') and ref_id(cnd['l']) == vid and val(cnd['r']) is not None and 'unsigned' in (strip_all(cnd['l']).get('ty') or ''):
+                            bound = val(cnd['r']) - (1 if cnd['op'] == '<' else 0)
+                            hi = bound if hi is None else min(hi, bound)
+                    node = pnode
             R.check(hi is not None and hi <= 127, '%s: emitByte(%s)' % (f['name'], show(a)[:50]), loc(c, f), expected='value provably <= 127 (no sign ambiguity in an imm8 field)', found='max %s' % hi)
     if n < 3:
         raise AnalysisBroken('IMM-ENC: only %d immediate-derived byte emits found (expected the rotate counts)' % n)
